@@ -324,7 +324,3 @@ func keysOf(m map[string]bool) []string {
 	return ks
 }
 
-func cmdCheck(args []string) {
-	fmt.Fprintln(os.Stderr, "check: not yet implemented")
-	os.Exit(2)
-}
